@@ -210,6 +210,24 @@ def build_corruptions():
             corr("debug:bad-field-attr-under-container-fmt", ["Debug"], "pub enum E%s { #[debug(\"c\")] A { #[debug(%s)] a: %s }, B }" % (g, bad, ty))
             corr("debug:bad-field-attr", ["Debug"], "pub struct S%s { #[debug(%s)] a: %s, b: u8 }" % (g, bad, ty))
         corr("params:forward-on-field", ["Mul"], "pub struct S%s(#[mul(forward)] %s);" % (g, ty))
+        if not g:
+            # an unknown / misplaced container argument is unknown also when a parenthesised predicate list follows it
+            for bad in ("bonds", "skip", "ignore", "bound_", "rename_all", "forward"):
+                corr("fmt:unknown-arg-with-predicates", ["Debug"], "#[debug(%s(T: ::core::clone::Clone))] pub struct S<T>(T);" % bad)
+                corr("fmt:unknown-arg-with-predicates", ["Debug"], "#[debug(%s(T: ::core::clone::Clone))] pub enum E<T> { A(T), B }" % bad)
+                corr("fmt:unknown-arg-with-predicates", ["Display"], "#[display(%s(T: ::core::clone::Clone))] pub struct S<T>(T);" % bad)
+            # arguments that only fields take, on the item or on a variant
+            for bad in ("source", "backtrace", "not(source)", "not(backtrace)"):
+                corr("error:field-arg-on-item", ["Error"], "#[error(%s)] pub struct S { a: i32 }" % bad)
+                corr("error:field-arg-on-item", ["Error"], "#[error(%s)] pub enum E { A(i32), B }" % bad)
+                corr("error:field-arg-on-variant", ["Error"], "pub enum E { #[error(%s)] A(i32), B }" % bad)
+            # a bare attribute followed by a second one on the same field / variant (either order)
+            for a, b, pre, post in (("deref", "deref(ignore)", "pub struct S { ", " a: i32, b: u8 }"), ("deref", "deref(forward)", "pub struct S { ", " a: Box<i32>, b: u8 }"),
+                                    ("index", "index(ignore)", "pub struct S { ", " a: Vec<u8>, b: u8 }"), ("into_iterator", "into_iterator(ref)", "pub struct S { ", " a: Vec<u8>, b: u8 }"),
+                                    ("try_into", "try_into(ignore)", "pub enum E { ", " A(i32), B(u8) }"), ("is_variant", "is_variant(ignore)", "pub enum E { ", " A(i32), B }")):
+                d = {"deref": "Deref", "index": "Index", "into_iterator": "IntoIterator", "try_into": "TryInto", "is_variant": "IsVariant"}[a]
+                corr("params:bare-then-second", [d], "%s#[%s] #[%s]%s" % (pre, a, b, post))
+                corr("params:bare-then-second", [d], "%s#[%s] #[%s]%s" % (pre, b, a, post))
         corr("error:two-sources", ["Error"], "pub struct S%s { #[error(source)] a: %s, #[error(source)] b: i32 }" % (g, ty))
         corr("error:two-backtraces", ["Error"], "pub struct S%s { #[error(backtrace)] a: %s, #[error(backtrace)] b: i32 }" % (g, ty))
 
